@@ -64,6 +64,22 @@ def run(prog, rep):
     rep.floor("C04-R7", 5)
 
 
+def iter_sources(it):
+    """All collections an iterator expression ranges over in lock-step (both sides of every zip)."""
+    t = it
+    out = []
+    while isinstance(t, tuple) and t and t[0] == "call" and isinstance(t[1], str):
+        l = t[1].rsplit("::", 1)[-1]
+        if l in ("iter", "into_iter", "enumerate", "by_ref", "cloned", "copied", "peekable") and len(t[2]) == 1:
+            t = t[2][0]
+        elif l == "zip" and len(t[2]) == 2:
+            out += iter_sources(t[2][1])
+            t = t[2][0]
+        else:
+            break
+    return [t] + out
+
+
 def iter_source(it):
     """Collection an iterator expression ranges over, looking through order-preserving adapters."""
     t = it
@@ -122,6 +138,12 @@ def check_batch_threading(prog, rep, rule):
                 elems.append(expected_elem)
             if src == trees and elems and not bad:
                 it_ok = True
+            # `formulae.iter().zip(&trees)`: any side of a zip may be the list of trees (zip visits both in order, in lock-step)
+            for alt in iter_sources(it)[1:]:
+                ee = norm.Normalizer()(("elem", alt))
+                if alt == trees and not bad and (any(y == ee for y in [node_arg] + list(subterms(node_arg))) or
+                                                 any(y[0] == "elem" and iter_source(y[1]) == alt for y in [node_arg] + list(subterms(node_arg)))):
+                    it_ok = True
             if bad:
                 why = f"the evaluation loop iterates through `{bad[0]}`: not every tree is evaluated, or not in order"
         rep.check(it_ok, rule, f"{f.name}/same-list", ev.where(), "the evaluated list is the list the context was built from, in order", why)
